@@ -160,5 +160,6 @@ DecV(b, maxSize, virt) ==
        IN IF r.c = "OK" THEN r @@ [used |-> lim - 1, rl |-> rl.v] ELSE r
 
 Dec(b, maxSize) == DecV(b, maxSize, 0)
-Must(why) == why \in {"length", "varint", "zero-id", "qos3", "utf8", "oversize"}
+\* ("return-code": a SUBACK / CONNACK return code the specification reserves - the MQTT 3.1.1 form of an unknown reason code)
+Must(why) == why \in {"length", "varint", "zero-id", "qos3", "utf8", "oversize", "return-code"}
 =============================================================================
